@@ -28,13 +28,25 @@ PROOF = "Gallia.Proofs.C18"
 DRIVER = "c18"
 ORACLE = True
 ASSUMPTIONS = [
-    "only the winning provider's value is validated (an invalid GALLIA_X is not noticed when --x is given): the model follows the code here",
-    "positional arguments are always given on the command line, so the other providers never get a turn (modelled as CLI-only)",
-    "options declared without gallia's Field() (vecu behaviour / randomness switches) carry no config metadata by design: CLI and default only",
+    "reading of 'an invalid value is rejected ... instead of being ignored': the property speaks about the value precedence selects; only the "
+    "winning provider's value is validated (GALLIA_DEPTH=zz is not noticed when --depth 5 is given): theorem losing_invalid_ignored, the model follows the code",
+    "reading of 'a message naming its source': the message names the provider whose value equals the rejected input, else the command line "
+    "(argparse/parser.py compares values); with the very same invalid text on the command line and in the environment / file the lower provider is "
+    "named, which does hold that text (theorem blamed_holds_input); modelled and tied, not counted as a violation",
     "validity of URI / float / OEM values is taken from the type's own constructor (opaque kinds); the glue around it is what is compared",
-    "plain int fields are offered plain decimal text only (pydantic's further lax forms such as '1_000' or '1.0' are outside the model)",
-    "field kinds not modelled (dict[str, Any], list of DDDI tuples, list of services, HexInt): default, presence and stored-config reload only",
-    "equal text given by two providers at once is not generated (the error message picks the provider by comparing values)",
+    "pydantic's lax str -> int (clean_int_str + JSON integer syntax) and Python's int(x, 0) / int(x, 16) / str.strip are modelled for the ASCII "
+    "alphabet and tied on all short strings; Unicode digits and Unicode white space are outside",
+    "argparse is modelled by contract: a repeated option keeps its last occurrence, nargs=* collects the tokens up to the next option string, "
+    "a value with a leading dash needs the --option=value form (negative list elements are therefore not offered)",
+    "TOML values of a type the before-validator of a special field type does not expect (a float for an AutoInt, an int for HexBytes / Ranges2D, a "
+    "non-member int for an enum) are not offered: no shipped command reads such a field from gallia.toml (theorem elementwise_kinds_not_in_file "
+    "and the kinds-by-provider table), the synthetic command would crash there",
+    "git root = nearest ancestor with a .git directory git accepts (GIT_DIR, .git files, bare repositories, safe.directory are outside); the user "
+    "config directory is $XDG_CONFIG_HOME/gallia or ~/.config/gallia (platformdirs on Linux); tomllib is trusted to turn the text into the document tree",
+    "the re-created configuration is compared inside one process: a default computed at import time (seed of `script vecu rng`) is stored "
+    "explicitly, which the stored-JSON comparison checks, but a second interpreter is not started",
+    "dict[str, Any] (--properties of `script vecu db`) cannot be given by any provider (theorem dict_unprovidable, known finding); its store / "
+    "reload is tied on configurations built through the API",
 ]
 
 UNMODELLED = "other"
@@ -210,6 +222,12 @@ def make_case(plan: Plan, o: L.Opt, combo: dict[str, str], rng) -> dict | None:
         "kname": o.kind.name, "ksub": o.kind.sub,
     }
     cli_part = cli_args(o, prov["cli"][1]) if "cli" in prov and prov["cli"][0] != "F" else ([opt_flag(o)] if "cli" in prov else [])
+    if "cli" in prov and prov["cli"][0] != "F" and not o.positional and rng.random() < 0.12:
+        # the option given twice: argparse keeps the last occurrence (an earlier one may even be invalid)
+        first = (V.valid(o.kind, "cli", rng, plan.hi, plan.uri_pool) if rng.random() < 0.7 else V.invalid(o.kind, "cli", rng))
+        if first is not None and not (_dashed(first[1]) and o.kind.name in LIST_KINDS):
+            cli_part = cli_args(o, first[1]) + cli_part
+            case["repeated"] = True
     case["argv"] = plan.argv_for(o.name, cli_part, provides=bool(prov))
     return case
 
@@ -1113,16 +1131,20 @@ def check_getvalue(ctx, rng):
             lines.append(f"gv {L.tree_tok(doc)} {L.thex(k) or '-'}")
             meta.append((doc, k))
     for (doc, k), mo in zip(meta, ctx.lean(lines)):
-        v = Config(doc).get_value(k)
-        impl = "none" if v is None else L.tree_tok(v)
+        try:
+            v = Config(doc).get_value(k)
+            impl = "none" if v is None else L.tree_tok(v)
+        except Exception as e:  # noqa: BLE001
+            v, impl = None, f"raises-{type(e).__name__}"
         ctx.ev()
         ctx.kind("get_value:" + ("absent" if v is None else "table" if isinstance(v, dict) else "falsy" if not v else "value"))
         if v is not None:
             ctx.nontrivial(("gv", L.tree_tok(doc), k))
         if impl != mo:
-            ctx.disagree(f"get-value:{'falsy' if (mo != 'none' and impl == 'none') else 'other'}:{k!r}",
-                         f"Config.get_value({k!r}) on {doc!r}: implementation {v!r}, model {mo}", {"doc": doc, "key": k}, impl=impl, model=mo,
-                         spec_violated=(mo != "none" and impl == "none"), site="config.Config.get_value")
+            ctx.disagree(f"get-value:{'falsy' if (mo != 'none' and impl == 'none') else impl if impl.startswith('raises') else 'other'}:{k!r}",
+                         f"Config.get_value({k!r}) on {doc!r}: implementation {impl if v is None else repr(v)}, model {mo}", {"doc": doc, "key": k},
+                         impl=impl, model=mo, spec_violated=(mo != "none" and impl == "none") or impl.startswith("raises"),
+                         site="config.Config.get_value")
     ctx.exhaustive_parts.append(f"Config.get_value: {len(lines)} (document, dotted key) pairs: existing paths, paths through values, to tables, "
                                 "missing, empty parts; falsy values 0 / false / '' / [] / {} among the leaves")
 
@@ -1192,99 +1214,134 @@ def _fake_git(d):
         f.write("ref: refs/heads/main\n")
 
 
-def check_discovery(ctx, rng):
-    import itertools
-    import shutil
-    import tempfile
-    from pathlib import Path
+class DiscTree:
+    """a real directory tree work/proj/sub (the working directory is `sub`), HOME, XDG and extra directories under one
+    temp root; `run(world)` arranges .git directories / gallia.toml files / environment and asks the real search_config()"""
 
-    from gallia import config as gc
+    def __init__(self):
+        import tempfile
 
-    root = os.path.realpath(tempfile.mkdtemp(prefix="c18d-", dir="/var/tmp"))
-    saved_env = {k: os.environ.get(k) for k in ("HOME", "XDG_CONFIG_HOME", "GIT_CEILING_DIRECTORIES", "GALLIA_CONFIG", "GIT_DIR", "GIT_WORK_TREE")}
-    saved_cwd = os.getcwd()
-    try:
+        self.root = os.path.realpath(tempfile.mkdtemp(prefix="c18d-", dir="/var/tmp"))
+        self.saved_env = {k: os.environ.get(k) for k in ("HOME", "XDG_CONFIG_HOME", "GIT_CEILING_DIRECTORIES", "GALLIA_CONFIG", "GIT_DIR", "GIT_WORK_TREE")}
+        self.saved_cwd = os.getcwd()
+        root = self.root
         d2 = os.path.join(root, "work")
         d1 = os.path.join(d2, "proj")
         d0 = os.path.join(d1, "sub")
-        chain = [d0, d1, d2]
-        home, xdg = os.path.join(root, "home"), os.path.join(root, "xdg")
-        extra = [os.path.join(root, "extra0"), os.path.join(root, "extra1")]
-        envfile = os.path.join(root, "envcfg", "my.toml")
-        for d in chain + [os.path.join(home, ".config", "gallia"), os.path.join(xdg, "gallia"), os.path.dirname(envfile)] + extra:
+        self.chain = [d0, d1, d2]
+        self.home, self.xdg = os.path.join(root, "home"), os.path.join(root, "xdg")
+        self.extra = [os.path.join(root, "extra0"), os.path.join(root, "extra1")]
+        self.envfile = os.path.join(root, "envcfg", "my.toml")
+        for d in self.chain + [os.path.join(self.home, ".config", "gallia"), os.path.join(self.xdg, "gallia"), os.path.dirname(self.envfile)] + self.extra:
             os.makedirs(d, exist_ok=True)
-        os.environ["HOME"] = home
+        os.environ["HOME"] = self.home
         os.environ["GIT_CEILING_DIRECTORIES"] = root
         for k in ("GIT_DIR", "GIT_WORK_TREE"):
             os.environ.pop(k, None)
         os.chdir(d0)
-        user_toml = {True: os.path.join(xdg, "gallia", "gallia.toml"), False: os.path.join(home, ".config", "gallia", "gallia.toml")}
+        self.user_toml = {True: os.path.join(self.xdg, "gallia", "gallia.toml"), False: os.path.join(self.home, ".config", "gallia", "gallia.toml")}
+        self.cur_git = None
 
+    @staticmethod
+    def _set(path, on):
+        from pathlib import Path
+
+        if on:
+            Path(path).write_text("")
+        elif os.path.exists(path):
+            os.unlink(path)
+
+    def run(self, world):
+        import shutil
+        from pathlib import Path
+
+        from gallia import config as gc
+
+        gits, tomls, xs, xt, ht, ev, ex = world
+        gits, tomls = tuple(gits), tuple(tomls)
+        if gits != self.cur_git:
+            for d, g in zip(self.chain, gits):
+                shutil.rmtree(os.path.join(d, ".git"), ignore_errors=True)
+                if g:
+                    _fake_git(d)
+            self.cur_git = gits
+        for d, t in zip(self.chain, tomls):
+            self._set(os.path.join(d, "gallia.toml"), t)
+        self._set(self.user_toml[True], xt)
+        self._set(self.user_toml[False], ht)
+        if xs:
+            os.environ["XDG_CONFIG_HOME"] = self.xdg
+        else:
+            os.environ.pop("XDG_CONFIG_HOME", None)
+        extras = []
+        for i, c in enumerate("" if ex == "-" else ex):
+            self._set(os.path.join(self.extra[i], "gallia.toml"), c == "1")
+            extras.append(Path(self.extra[i]))
+        self._set(self.envfile, False)
+        if ev == "u":
+            os.environ.pop("GALLIA_CONFIG", None)
+        else:
+            os.environ["GALLIA_CONFIG"] = self.envfile
+            self._set(self.envfile, ev == "e")
+        try:
+            got = gc.search_config(extra_paths=extras or None)
+            impl = "nothing" if got is None else "file " + str(got)
+        except FileNotFoundError:
+            impl = "notfound"
+        return impl, [str(p) for p in gc.get_config_dirs()]
+
+    @staticmethod
+    def line(world) -> str:
+        gits, tomls, xs, xt, ht, ev, ex = world
+        return "disc " + ",".join(("g" if g else "-") + ("t" if t else "-") for g, t in zip(gits, tomls)) + f" {ev} {xs} {xt} {ht} {ex}"
+
+    def place(self, tok, xs):
+        if tok == "env":
+            return self.envfile
+        if tok.startswith("up:"):
+            return os.path.join(self.chain[int(tok[3:])], "gallia.toml")
+        if tok == "user":
+            return self.user_toml[bool(xs)]
+        return os.path.join(self.extra[int(tok[6:])], "gallia.toml")
+
+    def model(self, mo, world):
+        """driver output -> (result as the implementation would print it, directory list)"""
+        parts = mo.split()
+        cands = parts[-1].split(",")
+        res = parts[0] if parts[0] != "file" else "file " + self.place(parts[1], world[2])
+        return res, [os.path.dirname(self.place(c, world[2])) for c in cands if not c.startswith("extra")], parts
+
+    def close(self):
+        import shutil
+
+        os.chdir(self.saved_cwd)
+        for k, v in self.saved_env.items():
+            if v is None:
+                os.environ.pop(k, None)
+            else:
+                os.environ[k] = v
+        shutil.rmtree(self.root, ignore_errors=True)
+
+
+def check_discovery(ctx, rng):
+    import itertools
+
+    dt = DiscTree()
+    root = dt.root
+    try:
         worlds = list(itertools.product(itertools.product([0, 1], repeat=3), itertools.product([0, 1], repeat=3), [0, 1], [0, 1], [0, 1], "uem",
                                         ["-", "0", "1", "01", "10", "11"]))
         if ctx.quick and not ctx.widened:
-            # every git placement x every gallia.toml placement with the user dirs / env / extra drawn, plus a seeded sample
+            # every git placement x every gallia.toml placement with the user dirs / env / extra fixed, plus a seeded sample
             pick = [w for w in worlds if w[5] == "u" and w[6] == "-" and w[2:5] == (1, 1, 0)]
             rest = [w for w in worlds if w not in set(pick)]
             worlds = pick + rng.sample(rest, 90)
-        lines, meta = [], []
-        cur_git = None
         worlds.sort(key=lambda w: w[0])
-        for gits, tomls, xs, xt, ht, ev, ex in worlds:
-            if gits != cur_git:
-                for d, g in zip(chain, gits):
-                    shutil.rmtree(os.path.join(d, ".git"), ignore_errors=True)
-                    if g:
-                        _fake_git(d)
-                cur_git = gits
-            for d, t in zip(chain, tomls):
-                p = os.path.join(d, "gallia.toml")
-                if t:
-                    Path(p).write_text("")
-                elif os.path.exists(p):
-                    os.unlink(p)
-            for flag, p in ((xt, user_toml[True]), (ht, user_toml[False])):
-                if flag:
-                    Path(p).write_text("")
-                elif os.path.exists(p):
-                    os.unlink(p)
-            if xs:
-                os.environ["XDG_CONFIG_HOME"] = xdg
-            else:
-                os.environ.pop("XDG_CONFIG_HOME", None)
-            extras = []
-            for i, c in enumerate("" if ex == "-" else ex):
-                p = os.path.join(extra[i], "gallia.toml")
-                if c == "1":
-                    Path(p).write_text("")
-                elif os.path.exists(p):
-                    os.unlink(p)
-                extras.append(Path(extra[i]))
-            if os.path.exists(envfile):
-                os.unlink(envfile)
-            if ev == "u":
-                os.environ.pop("GALLIA_CONFIG", None)
-            else:
-                os.environ["GALLIA_CONFIG"] = envfile
-                if ev == "e":
-                    Path(envfile).write_text("")
-            try:
-                got = gc.search_config(extra_paths=extras or None)
-                impl = "nothing" if got is None else "file " + str(got)
-            except FileNotFoundError:
-                impl = "notfound"
-            dirs = [str(p) for p in gc.get_config_dirs()]
-            lines.append("disc " + ",".join(("g" if g else "-") + ("t" if t else "-") for g, t in zip(gits, tomls)) + f" {ev} {xs} {xt} {ht} {ex}")
-            meta.append((impl, dirs, (gits, tomls, xs, xt, ht, ev, ex)))
-
-        def place(tok, xs):
-            if tok == "env":
-                return envfile
-            if tok.startswith("up:"):
-                return os.path.join(chain[int(tok[3:])], "gallia.toml")
-            if tok == "user":
-                return user_toml[bool(xs)]
-            return os.path.join(extra[int(tok[6:])], "gallia.toml")
+        lines, meta = [], []
+        for w in worlds:
+            impl, dirs = dt.run(w)
+            lines.append(dt.line(w))
+            meta.append((impl, dirs, w))
 
         def weight(item):
             (_, _, (gits, tomls, xs, xt, ht, ev, ex)), _ = item
@@ -1294,10 +1351,7 @@ def check_discovery(ctx, rng):
         # smallest worlds first: the first disagreement reported is a minimal one; a different file first, then a different
         # directory list that happens to find the same file
         for (impl, dirs, w), mo in sorted(zip(meta, ctx.lean(lines)), key=weight):
-            parts = mo.split()
-            cands = parts[-1].split(",")
-            res = parts[0] if parts[0] != "file" else "file " + place(parts[1], w[2])
-            mdirs = [os.path.dirname(place(c, w[2])) for c in cands if not c.startswith("extra")]
+            res, mdirs, parts = dt.model(mo, w)
             ctx.ev()
             ctx.kind("discovery:" + (parts[1].split(":")[0] if parts[0] == "file" else parts[0]))
             ctx.nontrivial(("disc",) + tuple(map(str, w)))
@@ -1309,20 +1363,14 @@ def check_discovery(ctx, rng):
                              f"search_config() with .git in {gits}, gallia.toml in {tomls} (cwd, parent, grandparent), XDG_CONFIG_HOME {'set' if xs else 'unset'} "
                              f"(xdg file {xt}, ~/.config file {ht}), GALLIA_CONFIG {ev}, extra {ex}: implementation {impl.replace(root, '')} dirs "
                              f"{[d.replace(root, '') for d in dirs]}, model {res.replace(root, '')} dirs {[d.replace(root, '') for d in mdirs]}",
-                             {"git": gits, "toml": tomls, "xdg_set": xs, "xdg_toml": xt, "home_toml": ht, "env": ev, "extra": ex},
+                             {"discovery": [list(gits), list(tomls), xs, xt, ht, ev, ex]},
                              impl=[impl.replace(root, ""), [d.replace(root, "") for d in dirs]], model=[res.replace(root, ""), [d.replace(root, "") for d in mdirs]],
                              spec_violated=impl != res, site="config.search_config / get_config_dirs / get_git_root")
         ctx.exhaustive_parts.append(f"config file discovery on a real directory tree (cwd / parent / grandparent, fake .git directories, HOME, "
                                     f"XDG_CONFIG_HOME, GALLIA_CONFIG, extra_paths): {len(lines)} worlds" +
                                     ("" if ctx.quick and not ctx.widened else " = every combination"))
     finally:
-        os.chdir(saved_cwd)
-        for k, v in saved_env.items():
-            if v is None:
-                os.environ.pop(k, None)
-            else:
-                os.environ[k] = v
-        shutil.rmtree(root, ignore_errors=True)
+        dt.close()
 
 
 # ------------------------------------------------------------------------------------------------------------------
@@ -1502,6 +1550,39 @@ def replay(ctx, case):
     L.ready()
     c = case.get("case", {})
     print(json.dumps(c, indent=1, default=str))
+    if "discovery" in c:
+        dt = DiscTree()
+        try:
+            w = c["discovery"]
+            impl, dirs = dt.run(w)
+            res, mdirs, _ = dt.model(ctx.lean([dt.line(w)])[0], w)
+            print("implementation:", impl.replace(dt.root, ""), [d.replace(dt.root, "") for d in dirs])
+            print("model:         ", res.replace(dt.root, ""), [d.replace(dt.root, "") for d in mdirs])
+            return 0 if (impl, dirs) == (res, mdirs) else 1
+        finally:
+            dt.close()
+    if "doc" in c and "key" in c:
+        from gallia.config import Config
+
+        v = Config(c["doc"]).get_value(c["key"])
+        impl = "none" if v is None else L.tree_tok(v)
+        mo = ctx.lean([f"gv {L.tree_tok(c['doc'])} {L.thex(c['key']) or '-'}"])[0]
+        print("implementation:", repr(v), impl)
+        print("model:         ", mo)
+        return 0 if impl == mo else 1
+    if "text" in c and "kind" in c and "option" in c:
+        st = _worker_state()
+        path, _, name = c["option"].rpartition(":")
+        plan = Plan(tuple(path.split()), st["cmds"][tuple(path.split())], random.Random(0))
+        ta = _adapter([plan], plan.path, name)
+        try:
+            impl = str(ta.validate_python(c["text"]))
+        except Exception:  # noqa: BLE001
+            impl = "none"
+        mo = ctx.lean([f"{'lax' if c['kind'] == 'int' else 'hexint'} {L.thex(c['text']) or '-'}"])[0]
+        print("implementation:", impl)
+        print("model:         ", mo)
+        return 0 if impl == mo else 1
     if "argv" not in c:
         print("recorded case is not a parser run; impl:", case.get("impl"), "model:", case.get("model"))
         return 0
@@ -1527,18 +1608,24 @@ def replay(ctx, case):
 
 
 MANIFEST = {
-    "level_text": ("Lean 4 theorems over a model of configuration resolution: the three stages the code has (environment over file in "
-                   "the extra defaults, command line over extra default in argparse, field default last) compose to CLI > env > file > "
-                   "default for all 16 provider combinations; only the winner is validated and a refused value is reported with its "
-                   "provider, never skipped; dump/load of the stored configuration is the identity for every field type (AutoInt in four "
-                   "bases, HexBytes, Ranges, Ranges2D, enums by name or value, booleans, optional and const flags). Tied to the code by "
-                   "running the real create_parser for every command of load_commands() x every option x every provider combination "
-                   "with a temp gallia.toml and environment, the stored-config reload of every accepted run, the --template keys "
-                   "against the keys really looked up, and a table of all options regenerated from the live command tree with "
-                   "kernel-checked facts (no env-name / key collision inside a command)."),
-    "level_note": ("Partial: pydantic validation and argparse are modelled by contract; URI / float validity is taken from the type's "
-                   "constructor; a few container kinds are checked for presence and reload only. Trusted: Lean kernel (propext, "
-                   "Quot.sound, Classical.choice), the table generator, the harness."),
-    "technique": "Lean 4 proof (case analysis, induction on digit strings) + exhaustive differential correspondence against the real parser glue",
+    "level_text": ("Lean 4 theorems over a model of configuration resolution in three layers. (1) Providers: environment over file in the extra "
+                   "defaults, command line over extra default in argparse (positional arguments are never offered a default), field default last "
+                   "compose to CLI > env > file > default for all 16 provider combinations and every field kind (precedence, precedence_all_kinds); "
+                   "only the winner is validated (losing_invalid_ignored), a refused value is never skipped (invalid_rejected_blame) and the provider "
+                   "named holds the rejected input (blamed_holds_input, invalid_names_source). (2) Values: every field kind that occurs in the live "
+                   "command tree has a codec - AutoInt in four bases, HexInt, pydantic's lax int, HexBytes, Ranges, Ranges2D, enums by name or value, "
+                   "enum lists, DDDI tuple lists, dict, booleans, optional and const flags - with load (dump v) = v (load_dump) and, field by field "
+                   "over a whole configuration, reload (store cfg) = cfg (reload_store); the regenerated (command, option, kind) table must contain "
+                   "no kind the model lacks (all_kinds_modelled). (3) File layer: documents as trees, Config.get_value, the section.name key rule, the "
+                   "template document (template_roundtrip for the live registry, registry_prefix_free) and config file discovery "
+                   "(discovery_order, discovery_independent_of_later, git_root_nearest). Tied to the code by the real create_parser for every command "
+                   "x every option x every provider combination with valid and invalid texts of every kind, the text codecs on all short strings, "
+                   "Config.get_value on generated documents, --template parsed back, search_config on real directory trees with fake .git "
+                   "directories, and the reload through Rerunner.main from META.json and from run_meta in a real database."),
+    "level_note": ("Partial: pydantic validation, argparse, tomllib, git and platformdirs are modelled by contract; URI / float validity is taken "
+                   "from the type's constructor; cross-field validators are kept satisfied, not modelled. Trusted: Lean kernel (propext, Quot.sound, "
+                   "Classical.choice), the table generator, the harness."),
+    "technique": ("Lean 4 proof (case analysis, induction on digit strings, on documents and paths, first-match lemmas) + regenerated option / registry "
+                  "tables with kernel-checked obligations + exhaustive differential correspondence against the real parser glue, config loader and rerunner"),
     "design_ref": "DESIGN.md section 7, C18",
 }
